@@ -377,6 +377,7 @@ func (s *pState) flush(cw *cwriter.Writer, height int, iter <-chan *Bar) error {
 			// otherwise a bar may block in decor.WC.Format forever
 			for b := range iter {
 				<-b.frameCh
+				s.hm.push(b, false) // it has been popped off the heap: keep it in the container
 			}
 			close(s.iterDrop)
 			b.cancel()
